@@ -8,6 +8,11 @@ ids = [p["id"] for p in props]
 HOOK_COMMITS = ["332865e1b", "bf49db00e", "0b99e4fc0", "68bfb6d5a"]
 
 CHECKS = {
+ "C09": dict(
+   level="exploration", design="§4 C09",
+   technique="runtime monitoring: per-outer-row nested-evaluation oracle (reference interpreter on the generator's AST) for correlated subqueries; metamorphic oracle over CTE / MATERIALIZED CTE / VIEW / inlined forms of one inner query; recorded-deviation switches tied to semantic triggers",
+   text="A generator weighted to scalar/EXISTS/IN/ANY/ALL/LATERAL subqueries, correlated through filters, projections and aggregates and placed in the select list, WHERE and under NOT (where NULL vs FALSE is visible), is executed on databases with NULL and duplicate correlation values and inner sets that are empty for some outer rows; every result is compared with per-outer-row nested evaluation. The same inner query is then run as WITH, WITH MATERIALIZED, TEMP VIEW and inlined derived table (referenced once or twice) and the four results must agree; the documented MATERIALIZED+random() example must return true. Three recorded deviations (two-valued IN/ANY/ALL, COUNT bug, NULL correlation = empty set) are recognised only when their semantic trigger fired in the specification run.",
+   note="Self-joins of one CTE run into recorded optimizer defect optimizer-cte-self-join and are covered by fixed cases instead of the random stream."),
  "C07": dict(
    level="exploration", design="§4 C07",
    technique="runtime monitoring: per-group reference oracle (Python) over echoed rows; split/order homomorphism monitor (same data in 3 row orders x 1/2/3/8 partitions x adversarial controlled schedules must give the same groups and aggregates)",
